@@ -42,6 +42,12 @@ theorem accounts_faithful (prog : List Nat) (present : Bool) (sh : SetShape) (h 
     flatten prog present (setToIdl sh) = clientSlots prog present sh :=
   flatten_setToIdl prog present sh h
 
+/-- The form the correspondence run evaluates on the REAL IDL and the REAL client metas (it also
+tolerates an IDL-only fixed address over an explicit client key, see `agree`). -/
+theorem accounts_agree (prog : List Nat) (present : Bool) (sh : SetShape) (h : WF sh = true) :
+    agreeAll (flatten prog present (setToIdl sh)) (clientSlots prog present sh) = true := by
+  rw [accounts_faithful prog present sh h]; exact agreeAll_refl _
+
 /-- Outside `WF`: a `MaybeSigner<false, _>` over a `Signer<_>` (legal Rust) — the IDL says `signer`
 (and validation still demands the signature), the client meta says not. The analogous
 `MaybeMut<false, Mut<_>>` likewise. Recorded as an observation about the client side (C14), not an
@@ -88,6 +94,16 @@ theorem codama_preserves (s : IdlSet) (accts rems : List CAcc) (h : lowerDef s =
   | single _ => simp [lowerDef] at h
   | many _ _ _ => simp [lowerDef] at h
   | or _ => simp [lowerDef] at h
+
+/-- The instruction-level statement: when `IdlInstruction::try_to_codama` succeeds, same conclusion. -/
+theorem codama_preserves_ix (k : ArgKind) (s : IdlSet) (accts rems : List CAcc)
+    (h : lowerIx k s = .ok (accts, rems)) : accts ++ rems = leaves s [] := by
+  unfold lowerIx at h
+  split at h
+  · split at h
+    · rename_i r hr; cases h; exact codama_preserves s _ _ hr
+    · cases h
+  · cases h
 
 /-! ### non-vacuity -/
 
